@@ -356,6 +356,30 @@ CHECKS = {
              "Layout.tla (C17), core's print for numbers and names, gcc as linker.",
         technique="TLA+ prescription from the layout model (TLC) + spec-to-implementation replay",
         ref="DESIGN.md section 4 C18"),
+    "C19": dict(
+        engine="Layout/SysVAbi",
+        category="model_checking",
+        text="SysVAbi.tla is the psABI's argument classification as a machine that adds one "
+             "parameter at a time: integer registers left (of 6), SSE registers left (of 8); a "
+             "parameter's class pattern per eightbyte from the leaves of its type (offsets from "
+             "Layout.tla); MEMORY for more than 16 bytes; aggregates are never split between "
+             "registers and stack, registers stay available after an aggregate went to the stack; "
+             "a MEMORY-class result uses rdi. Every transition of its state graph - one per "
+             "(registers left, hidden result pointer, type of the added parameter) after "
+             "deduplication - is a signature: the parameters leading to the state, the tested "
+             "parameter, a trailing scalar; result types rotate over the pool. For each the host "
+             "gcc compiles a C callee and a C caller-through-function-pointer; the Capy program "
+             "declares the callee extern, calls it, and hands its own function to the C caller. "
+             "Both sides print every leaf of every argument and of the result; the verdict is "
+             "value identity (the host compiler is the convention's reference).",
+        note="quick: pool of 16 types, <= 6 parameters, 360 signatures x 4 printed lines; "
+             "thorough: pool of 33 types (scalars, pointers, optional pointers, bool, char, structs "
+             "of 1..64 bytes mixing integer / float eightbytes, arrays in structs), <= 8 "
+             "parameters, every deduplicated transition. Hook-free: harness job field c_source "
+             "(gcc compiles and links the C side). Trusted: TLC, gcc, the renderer in "
+             "tools/props/c19.py.",
+        technique="TLA+ classification machine (TLC state graph = test signatures) + replay against gcc-compiled C",
+        ref="DESIGN.md section 4 C19"),
     "C20": dict(
         engine="Repro/OrderIndep",
         category="model_checking",
